@@ -20,6 +20,8 @@ def family():
     for label, prog, meta in F.fam_cond_aux_two():
         if core.TIER != "quick" or ("dx0-dy0" in label or "dx0-dy1" in label) and label.split("/")[1] in ("repeat1-never", "repeat1-repeat1", "now-never", "now-repeat1"):
             yield label, prog, dict(parents=None)
+    for label, prog, meta in F.fam_cond_aux_three():
+        yield label, prog, dict(parents=None)
     for label, prog, meta in F.fam_restart():
         if "condaux" in label:
             yield label, prog, dict(parents=None)
